@@ -901,7 +901,7 @@ func (interp *Interpreter) cfg(root *node, sc *scope, importPath, pkgName string
 					src.findex = dest.findex // Set recv address to LHS.
 					dest.typ = src.typ
 				case src.action == aCompositeLit:
-					if dest.typ.cat == valueT && dest.typ.rtype.Kind() == reflect.Interface {
+					if isInterfaceBin(dest.typ) {
 						// Skip optimisation for assigned interface.
 						break
 					}
